@@ -680,6 +680,17 @@ func checkC09(c *Check) {
 	for f := range sub.funcs {
 		c.SawFunc(f)
 	}
+
+	// ---- K8: the consumer of the keys. The queue reads per-recipient results back under the strings it passed to
+	// AddRcpt; its own collector must file them under the key it is called with (C10.R6).
+	c.Rule("K8", "the queue's result collector (partialError.SetStatus) files a failure under exactly the key it was called with (C10.R6)", 1)
+	sub10 := newCheck("C10", c.P, c.Tier)
+	c10Recipients(sub10)
+	for _, o := range sub10.obs {
+		if o.Rule == "R6" {
+			c.Hold("K8", o.Key, o.posRaw, o.OK, o.Msg)
+		}
+	}
 }
 
 func fieldOwnerName(fv *types.Var) string {
